@@ -25,7 +25,7 @@ ASSUMPTIONS = [
     "library-internal helper generators (WorkQueue.events, batches) need not be closed; only tasks and harness source iterators are checked",
 ]
 
-REQ_NAMES_QUICK = ["plain_bg1", "plain_bg2", "defer1", "defer_stream", "nested", "defer_list", "stream_agen", "defer_in_stream", "two_streams", "nonnull_deferred", "overlap"]
+REQ_NAMES_QUICK = ["plain_bg1", "plain_bg2", "initial_async", "defer1", "defer_stream", "nested", "defer_list", "stream_agen", "defer_in_stream", "two_streams", "nonnull_deferred", "overlap"]
 STOPS = [("none", None), ("aclose", None), ("abort", None), ("abort", "exc"), ("abort", "value")]
 
 
@@ -73,6 +73,9 @@ def judge(obs, stop, reason_kind, reason, label, payload, res):
         res.violation(f"{pre}:{clause}", f"{label}: {detail}", payload)
 
     if obs.status.startswith("hang"):
+        if "caller:aborted" in obs.trace:
+            v("aborted_result_never_settles", f"the caller got {type(obs.exc).__name__} but the partial result exposed on it never settled: {obs.status}")
+            return False
         v("caller_not_released", f"{obs.status}; payloads so far {len(obs.payloads)}; pending tasks {obs.left}")
         return False
     if obs.status == "raised":
